@@ -373,3 +373,187 @@ def shrink(case):
             c = copy.deepcopy(case)
             del c["ops"][i]["also"]
             yield c
+
+
+# ------------------------------------------------------------------ the text route as a history (C18)
+
+def text_source(r):
+    return ("label = \"rev %d: q\\\"uote, back\\\\slash, tab\\there\"\nprint label\n"
+            "xs: [int...] = [%d, %d]\nxs.push(%d)\nprint xs\n"
+            "class Box {\n\tv: int\n\tconstructor(self, v: int) {\n\t\tself.v = v\n\t}\n\tfn twice(self) -> int {\n\t\treturn self.v * 2\n\t}\n}\n"
+            "bx = Box(%d)\nprint bx.twice()\nprint \"done %d\"\n" % (r, r, r + 1, r + 2, 20 + r, r))
+
+
+def text_expect(r):
+    return "rev %d: q\"uote, back\\slash, tab\there\n[%d, %d, %d]\n%d\ndone %d\n" % (r, r, r + 1, r + 2, 2 * (20 + r), r)
+
+
+TEXT_TEMPLATES = [["compile_text", "stage", "transpile", "execute"], ["compile_text", "stage", "edit", "transpile", "execute"],
+                  ["compile_text", "stage", "transpile", "edit", "compile_text", "stage", "transpile", "execute"],
+                  ["compile", "edit", "compile_text", "stage", "transpile", "execute"],
+                  ["compile_text", "stage", "crash", "transpile", "execute"], ["compile_text", "stage", "transpile", "edit", "compile_text", "stage", "execute_t"],
+                  ["compile_text", "stage", "transpile", "transpile", "execute"], ["compile_text", "stage", "execute_t", "edit", "compile_text", "stage", "crash", "execute_t"],
+                  ["compile_text", "stage", "transpile", "clean", "transpile", "execute"], ["compile_text", "crash", "compile_text", "stage", "transpile", "execute"]]
+
+
+def gen_text_cases(prop, tier, seed, count):
+    for i in range(count):
+        rng = Rng(derive(seed, prop, "texthist", i))
+        quiet = i % 5 == 0
+        kinds = list(rng.choice(TEXT_TEMPLATES)) if rng.chance(2, 3) else \
+            [rng.weighted([("edit", 3), ("compile_text", 4), ("stage", 4), ("transpile", 4), ("execute", 3), ("execute_t", 2), ("compile", 1),
+                           ("run", 1), ("clean", 1), ("crash", 3)]) for _ in range(rng.range(4, 10))] + ["compile_text", "stage", rng.choice(["transpile", "execute_t"]), "execute"]
+        ops = []
+        for j, kind in enumerate(kinds):
+            if kind == "crash" and quiet:
+                kind = "transpile"
+            op = {"op": kind}
+            if kind == "crash":
+                op["cmd"] = rng.weighted([("transpile", 4), ("compile_text", 3), ("execute_t", 2), ("execute", 1)])
+                op["plan"], op["gc"] = gen_plan(rng, "k%d" % j, True)
+                call, pat, hi = {"transpile": rng.weighted([(("write", "*.mmm", 20), 4), (("read", "*.mmm", 8), 2), (("open", "*.mmm", 3), 2)]),
+                                 "compile_text": rng.weighted([(("write", "*.mmm", 20), 4), (("open", "*.mmm", 3), 1)]),
+                                 "execute_t": rng.weighted([(("write", "*.mmm", 20), 4), (("read", "*.mmm", 10), 2), (("open", "*.mmm", 4), 2)]),
+                                 "execute": rng.weighted([(("read", "*.mmm", 8), 2), (("write", "<stdout>", 4), 1)])}[op["cmd"]]
+                k = min(rng.range(1, hi), rng.range(1, hi))
+                op["rules"] = [{"id": "crash", "call": call, "pat": pat, "nth": str(k), "act": rng.choice(["kill", "killafter"])}]
+                if call == "write" and pat == "*.mmm" and rng.chance(1, 2):
+                    op["rules"] = [{"id": "crasht", "call": "write", "pat": "*.mmm", "nth": str(k), "act": "short:%d" % rng.range(1, 7)},
+                                   {"id": "crash", "call": "write", "pat": "*.mmm", "nth": str(k + 1), "act": "kill"}]
+            elif kind not in ("edit", "stage"):
+                op["plan"], op["gc"] = gen_plan(rng, "o%d" % j, quiet or rng.chance(1, 2))
+            ops.append(op)
+        yield {"prop": prop, "id": "x%d" % i, "batch": "history_fault_free" if quiet else "history", "kind": "texthist",
+               "clock": "steady" if quiet else rng.choice(CLOCKS), "start_rev": rng.range(1, 3), "ops": ops}
+
+
+def run_text_case(case):
+    """State: S = revision of prog.ms; T = revision prog.transpiled.mmm (text) was written from; B = what prog.mmm holds:
+    ("text", r) fresh from `compile --output-format raw-text`, ("bin", r) from `compile` or `transpile`, None, "?"."""
+    clock = case.get("clock", "steady")
+    S = case.get("start_rev", 1)
+    T, B = None, None
+    world = core.fresh_world({"prog.ms": text_source(S)}, sub="proj")
+    now = BASE_TIME
+    times = _stamp(world, {}, "steady", now)
+    procs, rules_by_proc, trace, probes = [], [], [], {}
+    failure = None
+    step = {"steady": 10, "frozen": 0, "backwards": -10, "old_sources": 10, "future_artefacts": 10}[clock]
+
+    def cmd(args, op, extra_rules=()):
+        plan = {"seed": op["plan"]["seed"], "rules": list(op["plan"]["rules"]) + list(extra_rules)}
+        p = core.run_cmd(world, args, plan=plan, gc=op.get("gc"))
+        procs.append(p)
+        rules_by_proc.append(plan["rules"])
+        return p
+
+    def fail(cls, msg, p):
+        return {"ok": False, "class": cls, "msg": msg,
+                "detail": {"history_so_far": trace, "source_revision": S, "text_revision": T, "binary": str(B), "clock": clock,
+                           "last": {"args": p["args"], "rc": p["rc"], "stdout": core.text(p["out"])[-1200:], "stderr": core.text(p["err"])[-1200:],
+                                    "fired": sorted({e["rule"] for e in p["events"] if e["rule"] != "-"})}}}
+
+    def judged(p, r, what):
+        if p["timeout"]:
+            return None
+        out = core.text(p["out"])
+        if what.startswith("`execute --transpile"):
+            # the shortcut prints a banner and the transpiler's message first; the program's output must follow, whole and alone
+            head = out[:-len(text_expect(r))] if out.endswith(text_expect(r)) else out
+            out = text_expect(r) if (out.endswith(text_expect(r)) and "rev " not in head and "done " not in head) else out
+        if p["rc"] != 0 or out != text_expect(r):
+            return fail("history-text-route-wrong", "after %s: %s ended with rc=%d and printed %r; the text form was written from revision %d, which prints %r"
+                        % (trace, what, p["rc"], core.text(p["out"])[-300:], r, text_expect(r)), p)
+        return None
+    ARGS = {"compile_text": ["compile", "prog.ms", "--output-format", "raw-text", "--quick"], "compile": ["compile", "prog.ms", "--quick"],
+            "transpile": ["transpile", "prog.transpiled.mmm"], "execute": ["execute", "prog.mmm"],
+            "execute_t": ["execute", "prog.transpiled.mmm", "--transpile"], "run": ["run", "prog.ms", "-q"], "clean": ["clean", "."]}
+    exists = lambda n: os.path.exists(os.path.join(world, n))
+    for i, op in enumerate(case["ops"]):
+        kind = op["op"]
+        now += step
+        label = kind
+        if kind == "edit":
+            S += 1
+            with open(os.path.join(world, "prog.ms"), "w") as f:
+                f.write(text_source(S))
+        elif kind == "stage":
+            # what the CLI's help tells the user to do: rename the text form before transpiling it
+            if isinstance(B, tuple) and B[0] == "text":
+                os.replace(os.path.join(world, "prog.mmm"), os.path.join(world, "prog.transpiled.mmm"))
+                T, B = B[1], None
+            else:
+                label += " (skipped)"
+        elif kind in ("compile_text", "compile"):
+            p = cmd(ARGS[kind], op)
+            B = (("text" if kind == "compile_text" else "bin"), S) if p["rc"] == 0 else "?"
+            if p["rc"] != 0 and not p["timeout"]:
+                failure = fail("history-compile-failed", "after %s: `%s` failed with rc=%d" % (trace, " ".join(ARGS[kind]), p["rc"]), p)
+        elif kind == "run":
+            p = cmd(ARGS[kind], op)
+            if not p["timeout"] and (p["rc"] != 0 or core.text(p["out"]) != text_expect(S)):
+                failure = fail("history-run-wrong", "after %s: `run` ended with rc=%d and printed %r" % (trace, p["rc"], core.text(p["out"])[-300:]), p)
+        elif kind == "transpile":
+            if not isinstance(T, int) or not exists("prog.transpiled.mmm"):
+                label += " (skipped)"
+            else:
+                p = cmd(ARGS[kind], op)
+                B = ("bin", T) if p["rc"] == 0 else "?"
+                if p["rc"] != 0 and not p["timeout"]:
+                    failure = fail("history-transpile-failed", "after %s: `transpile` of an intact text form failed with rc=%d" % (trace, p["rc"]), p)
+        elif kind == "execute":
+            if not (isinstance(B, tuple) and B[0] == "bin") or not exists("prog.mmm"):
+                label += " (skipped)"
+            else:
+                p = cmd(ARGS[kind], op)
+                probes["text_history_execute_judged"] = 1
+                if B[1] != S:
+                    probes["text_history_execute_of_an_older_revision_judged"] = 1
+                failure = judged(p, B[1], "`execute prog.mmm`")
+        elif kind == "execute_t":
+            if not isinstance(T, int) or not exists("prog.transpiled.mmm"):
+                label += " (skipped)"
+            else:
+                p = cmd(ARGS[kind], op)
+                probes["text_history_execute_transpile_judged"] = 1
+                B = ("bin", T) if p["rc"] == 0 else "?"
+                failure = judged(p, T, "`execute --transpile`")
+        elif kind == "clean":
+            p = cmd(ARGS[kind], op)
+            T, B = None, None
+        elif kind == "crash":
+            c = op["cmd"]
+            need = {"transpile": "prog.transpiled.mmm", "execute_t": "prog.transpiled.mmm", "execute": "prog.mmm", "compile_text": "prog.ms"}[c]
+            ok_state = {"transpile": isinstance(T, int), "execute_t": isinstance(T, int), "execute": isinstance(B, tuple) and B[0] == "bin", "compile_text": True}[c]
+            if not exists(need) or not ok_state:
+                label += " %s (skipped)" % c
+            else:
+                p = cmd(ARGS[c], op, extra_rules=op["rules"])
+                p["aux"] = True
+                killed = p["rc"] == 137
+                label += " %s (%s)" % (c, "killed at %s" % "/".join("%s %s #%s" % (r["call"], r["pat"], r["nth"]) for r in op["rules"]) if killed else "ended before the kill point")
+                if killed:
+                    probes["text_history_%s_killed" % c] = 1
+                if c in ("transpile", "execute_t"):
+                    B = "?" if killed or p["rc"] != 0 else ("bin", T)
+                elif c == "compile_text":
+                    B = "?" if killed or p["rc"] != 0 else ("text", S)
+        trace.append(label)
+        times = _stamp(world, times, clock, now)
+        if kind == "edit" and clock == "old_sources":
+            p_ = os.path.join(world, "prog.ms")
+            os.utime(p_, (BASE_TIME - 86400 * 400 + i, BASE_TIME - 86400 * 400 + i))
+            times["prog.ms"] = os.lstat(p_).st_mtime_ns
+        if failure:
+            break
+    st = core.stats_of(procs, rules_by_proc)
+    st["hash_seeds"] = [o["plan"]["seed"] for o in case["ops"] if "plan" in o]
+    st["shape"] = core.shape_hash("texthist", clock, [(o["op"], o.get("cmd"), [(r["call"], r["nth"], r["act"].split(":")[0]) for r in o.get("rules", [])]) for o in case["ops"]])
+    st["nontrivial"] = len(procs) >= 2
+    st["sample"] = {"kind": "text-route history", "clock": clock, "ops": trace}
+    probes["history_clock_" + clock] = 1
+    st["probes"] = probes
+    if failure:
+        failure["stats"] = st
+        return failure
+    return {"ok": True, "stats": st}
